@@ -11,7 +11,7 @@ set -u
 PATCH=$(readlink -f "$1"); shift
 D=$(mktemp -d /tmp/mut.XXXXXX)
 git -C /repo worktree add -q "$D/r" HEAD || exit 2
-cp /repo/contracts_verif.go "$D/r/contracts_verif.go"
+cp "${VERIF_CONTRACTS:-/repo/contracts_verif.go}" "$D/r/contracts_verif.go"
 if ! git -C "$D/r" apply "$PATCH" 2>"$D/apply.err"; then
   echo "SKIP: patch does not apply: $(head -1 "$D/apply.err")"
   git -C /repo worktree remove --force "$D/r"; rm -rf "$D"; exit 3
@@ -19,9 +19,9 @@ fi
 rc=0
 for P in "$@"; do
   if [ "$P" = C27 ]; then
-    out=$(VERIF_REPO="$D/r" VERIF_OUT="$D/out" VERIF_EVIDENCE="$D/ev" /verif/bin/vc silent 2>&1)
+    out=$(VERIF_REPO="$D/r" VERIF_OUT="$D/out" VERIF_EVIDENCE="$D/ev" ${VC:-/verif/bin/vc} silent 2>&1)
   else
-    out=$(VERIF_TIMEOUT="${VERIF_TIMEOUT:-6}" VERIF_RETRY="${VERIF_RETRY:-0}" VERIF_REPO="$D/r" VERIF_OUT="$D/out" VERIF_EVIDENCE="$D/ev" /verif/bin/vc check -property "$P" -tier quick 2>&1)
+    out=$(VERIF_TIMEOUT="${VERIF_TIMEOUT:-6}" VERIF_RETRY="${VERIF_RETRY:-0}" VERIF_REPO="$D/r" VERIF_OUT="$D/out" VERIF_EVIDENCE="$D/ev" ${VC:-/verif/bin/vc} check -property "$P" -tier quick 2>&1)
   fi
   if echo "$out" | grep -q '^VIOLATION'; then
     echo "CAUGHT $P: $(echo "$out" | grep '^VIOLATION' | head -3 | sed 's/replay=[^ ]* //')"
